@@ -5,6 +5,8 @@
 //! simplest alternative; logging never draws a choice and never reads a clock.
 
 pub use serde_json;
+pub mod cli;
+pub mod inputs;
 use serde_json::{json, Value};
 use std::collections::{BTreeMap, BTreeSet};
 use std::path::{Path, PathBuf};
